@@ -268,6 +268,8 @@ type World struct {
 	defSeen   map[string]bool
 	nfresh    int
 	carrs     map[string]Term
+	pendingPrefix [][3]Term
+	pendingPerm   [][3]Term
 	ModPath   string
 	seqSorts  []Sort
 	Facts     []string
